@@ -716,7 +716,7 @@ def run(ctx):
     ctx.notes['tolerances'] = {'TolSolve': '2^-26 absolute (|solution| <= 64)', 'TolPenal': '2^-16 (epsilon = 2^-30)'}
     return ctx.finish(rule=RULE, assumptions=[
         'entries are small integers so that float64 arithmetic of the helpers is exact (exact universe)',
-        'matrices are CSR (or CSC / LIL, which support indexing) without duplicate column indices within a row; COO, DIA '
+        'matrices are CSR (or CSC / LIL, which support indexing), canonical or with entries stored twice; COO, DIA '
         'and BSR matrices (no indexing in SciPy) are not generated',
         'the real-solver pipelines (mode L) use strictly diagonally dominant integer systems with a known integer '
         'solution; TLC compares the fixed-point encoding of the returned floats with it'], exhaustive=False)
